@@ -62,8 +62,12 @@ type c04KeySet struct {
 }
 
 func c04NewKeySet(dir string) (*c04KeySet, error) {
+	return c04NewKeySetFPs(dir, []string{"c04-fp-alpha", "c04/fp+beta=="})
+}
+
+func c04NewKeySetFPs(dir string, fps []string) (*c04KeySet, error) {
 	ks := &c04KeySet{}
-	for i, fp := range []string{"c04-fp-alpha", "c04/fp+beta=="} {
+	for i, fp := range fps {
 		k, err := rsa.GenerateKey(crand.Reader, 1024)
 		if err != nil {
 			return nil, err
